@@ -174,6 +174,38 @@ def run(ctx, res):
                                             ids = [x.get("path") for x in arg["e"]["args"]]
                                             if sorted(ids) == sorted(el):
                                                 comp_ok = True
+                    if is_path(argsv) and nm_ok and not comp_ok:
+                        # iterator form: let <vec> = A.iter().zip(B).map(|(x, y)| unify(x, y)).collect::<Option<Vec<_>>>()?;
+                        vec = argsv["path"]
+                        a0 = [x for x, (sd, fld) in side.items() if fld == "args" and sd == 0]
+                        a1 = [x for x, (sd, fld) in side.items() if fld == "args" and sd == 1]
+                        for st in S.walk(body):
+                            if st["k"] != "Let" or st.get("init") is None or st["pat"].get("name") != vec:
+                                continue
+                            init = st["init"]
+                            if init["k"] != "Try":
+                                continue
+                            n = init["e"]
+                            if not (n["k"] == "MethodCall" and n["method"] == "collect"):
+                                continue
+                            m = n["recv"]
+                            if not (m["k"] == "MethodCall" and m["method"] == "map" and len(m["args"]) == 1 and m["args"][0]["k"] == "Closure"):
+                                continue
+                            z = m["recv"]
+                            if not (z["k"] == "MethodCall" and z["method"] == "zip"):
+                                continue
+                            srcs = S.idents_in(z)
+                            if not (a0 and a1 and a0[0] in srcs and a1[0] in srcs):
+                                continue
+                            c = m["args"][0]
+                            el = [q["name"] for q in c["params"][0]["elems"]] if c["params"] and c["params"][0]["k"] == "PTuple" else []
+                            b = c["body"]
+                            if b["k"] == "Block":
+                                b = S.tail_expr(b)
+                            if b is not None and b["k"] == "Call" and is_path(b["f"], "unify"):
+                                ids = [x.get("path") for x in b["args"]]
+                                if sorted(ids) == sorted(el):
+                                    comp_ok = True
                 if guard_ok and comp_ok and len(somes) == 1:
                     res.ok("JOIN-ROWS", key + " => same-name UserDefined with componentwise unify(arg_1, arg_2)? (covariant args, C14)")
                     res.sample({"rule": "JOIN-ROWS", "arm": "UserDefined", "line": S.line(a)})
@@ -212,7 +244,15 @@ def run(ctx, res):
                     if acc in ids0 and elems and elems[0] in ids1:
                         # the assigned value is the binding of the unify result
                         lets = [n for n in S.walk(fr["body"]) if n["k"] == "Let" and n["init"] is calls[0] or (n["k"] == "Let" and n.get("init") and n["init"].get("sp") == calls[0]["sp"])]
-                        bound = S.pat_bindings(lets[0]["pat"]) if lets else {}
+                        bound = dict(S.pat_bindings(lets[0]["pat"])) if lets else {}
+                        # `match unify(..) { Some(x) => acc = x, None => return Err(..) }` and `if let Some(x) = unify(..)`
+                        for n in S.walk(fr["body"]):
+                            if n["k"] == "Match" and n["e"].get("sp") == calls[0]["sp"]:
+                                for arm in n["arms"]:
+                                    if S.pat_variant(arm["pat"]) == "Some":
+                                        bound.update(S.pat_bindings(arm["pat"]))
+                            if n["k"] == "LetCond" and (n.get("e") or {}).get("sp") == calls[0]["sp"]:
+                                bound.update(S.pat_bindings(n["pat"]))
                         if is_path(assigns[0]["r"]) and assigns[0]["r"]["path"] in bound:
                             ok_loop = True
         if s["k"] == "ExprStmt" and not s["semi"]:
